@@ -207,9 +207,19 @@ func storeBase(addr ssa.Value) (base ssa.Value, container ssa.Value, desc string
 		}
 		return b, nil, "field " + on + "." + f.Name()
 	case *ssa.IndexAddr:
-		return nil, a.X, "element of " + accessPath(a.X)
+		return nil, a.X, "element of " + stableName(a.X)
 	}
 	return nil, nil, ""
+}
+
+// stableName: access path, or the type when the path is just an SSA register
+// (register numbers are not stable obligation keys).
+func stableName(v ssa.Value) string {
+	ap := accessPath(v)
+	if len(ap) > 1 && ap[0] == 't' && ap[1] >= '0' && ap[1] <= '9' && !strings.Contains(ap, ".") {
+		return "a " + v.Type().String()
+	}
+	return ap
 }
 
 type writeSite struct {
@@ -269,7 +279,7 @@ func (c *Ctx) writeSitesIn(fn *ssa.Function) []writeSite {
 					}
 				}
 			case *ssa.MapUpdate:
-				out = append(out, writeSite{fn: fn, ins: ins, cont: x.Map, desc: "map entry of " + accessPath(x.Map)})
+				out = append(out, writeSite{fn: fn, ins: ins, cont: x.Map, desc: "map entry of " + stableName(x.Map)})
 			case ssa.CallInstruction:
 				if i, ok := destArg(x.Common()); ok && i < len(x.Common().Args) {
 					out = append(out, writeSite{fn: fn, ins: ins, cont: x.Common().Args[i], desc: "destination argument of " + calleeFullName(x.Common())})
@@ -824,8 +834,22 @@ func init() {
 								break
 							}
 						}
-						if okDefer {
-							r.ok(key, fnName(fn), c.pos(ins.Pos()), "Get is paired with a deferred Put in the same block")
+						// exactly one Put of this pool in the function (the deferred one): a second Put hands the same
+						// context to two readers
+						nput := 0
+						for _, b2 := range fn.Blocks {
+							for _, i2 := range b2.Instrs {
+								if ci, ok := i2.(ssa.CallInstruction); ok {
+									if s2 := ci.Common().StaticCallee(); s2 != nil && funcFullName(s2) == "sync.(*Pool).Put" && ci.Common().Args[0] == ssa.Value(pool) {
+										nput++
+									}
+								}
+							}
+						}
+						if okDefer && nput > 1 {
+							r.bad(key, fnName(fn), c.pos(ins.Pos()), fmt.Sprintf("the pooled context is Put %d times: it would be handed to two readers at once", nput))
+						} else if okDefer {
+							r.ok(key, fnName(fn), c.pos(ins.Pos()), "Get is paired with exactly one (deferred) Put")
 						} else {
 							r.bad(key, fnName(fn), c.pos(ins.Pos()), "pooled context is not returned by a deferred Put")
 						}
